@@ -79,7 +79,8 @@ def path(eng, acc, task):
     except SymDivisionByZero:
         acc.inc('zero_state_paths')
         return
-    except (AssertionError, ValueError, IndexError, KeyError, TypeError, ZeroDivisionError, AttributeError) as e:
+    except Exception as e:
+        reraise_internal(e)
         # exceptions are the business of C02 / C01 / C03 / C12 / C13; aliasing cannot be judged on an aborted call
         acc.inc('aborted_calls_not_judged')
         return
